@@ -15,6 +15,7 @@ sys.setrecursionlimit(20000)
 
 UNDEF = ("undef",)
 _NONNEG = set()   # values known non-negative from the kernel's own assumptions (reset per function)
+_RANGES = {}      # signed value ranges of parameters from the kernel's own entry assumptions (reset per function)
 
 
 class Unsupported(Exception):
@@ -197,8 +198,69 @@ def mk_bin(op, ty, a, b):
     return ("op", op, ty, a, b)
 
 
+def _range(e, depth=0):
+    """signed value interval of an integer expression from the parameters' assumed ranges (interval arithmetic;
+    None when the value may wrap or the operation is not modelled)"""
+    if depth > 12 or not isinstance(e, tuple):
+        return None
+    t = e[0]
+    if t == "c":
+        return (sval(e), sval(e)) if e[1] > 1 else None
+    if t == "arg":
+        b = _bits(e[2])
+        if not b:
+            return None
+        return _RANGES.get(e, (-(1 << (b - 1)), (1 << (b - 1)) - 1))
+    if t == "cast":
+        r = _range(e[4], depth + 1)
+        if r is None:
+            return None
+        if e[1] == "sext":
+            return r
+        if e[1] == "zext":
+            return r if r[0] >= 0 else None
+        if e[1] == "trunc":
+            b = _bits(e[3])
+            return r if b and -(1 << (b - 1)) <= r[0] and r[1] < (1 << (b - 1)) else None
+        return None
+    if t == "op" and _bits(e[2]) and _bits(e[2]) > 1:
+        b = _bits(e[2])
+        lo_, hi_ = -(1 << (b - 1)), (1 << (b - 1)) - 1
+        x, y = _range(e[3], depth + 1), _range(e[4], depth + 1)
+        if x is None or y is None:
+            return None
+        if e[1] == "add":
+            r = (x[0] + y[0], x[1] + y[1])
+        elif e[1] == "sub":
+            r = (x[0] - y[1], x[1] - y[0])
+        elif e[1] == "mul":
+            c = [x[0] * y[0], x[0] * y[1], x[1] * y[0], x[1] * y[1]]
+            r = (min(c), max(c))
+        elif e[1] == "shl" and y[0] == y[1] and 0 <= y[0] < b:
+            r = (x[0] << y[0], x[1] << y[0])
+        elif e[1] == "ashr" and y[0] == y[1] and 0 <= y[0] < b:
+            r = (x[0] >> y[0], x[1] >> y[0])
+        else:
+            return None
+        return r if lo_ <= r[0] and r[1] <= hi_ else None
+    if t == "ite":
+        x, y = _range(e[2], depth + 1), _range(e[3], depth + 1)
+        return None if x is None or y is None else (min(x[0], y[0]), max(x[1], y[1]))
+    return None
+
+
 def mk_icmp(pred, ty, a, b):
     bits = _bits(ty)
+    if bits and bits > 1 and _RANGES and is_c(b) and not is_c(a) and pred in ("slt", "sle", "sgt", "sge", "eq", "ne"):
+        r = _range(a)
+        if r is not None:
+            k = sval(b)
+            always = {"slt": r[1] < k, "sle": r[1] <= k, "sgt": r[0] > k, "sge": r[0] >= k, "eq": r[0] == r[1] == k, "ne": k < r[0] or k > r[1]}[pred]
+            never = {"slt": r[0] >= k, "sle": r[0] > k, "sgt": r[1] <= k, "sge": r[1] < k, "eq": k < r[0] or k > r[1], "ne": r[0] == r[1] == k}[pred]
+            if always:
+                return C(1, 1)
+            if never:
+                return C(1, 0)
     if bits and is_c(a) and is_c(b):
         x, y, sx, sy = a[2], b[2], sval(a), sval(b)
         r = {"eq": x == y, "ne": x != y, "ult": x < y, "ule": x <= y, "ugt": x > y, "uge": x >= y,
@@ -789,8 +851,9 @@ def gated(mod, fn, max_paths=4000):
         raise Unsupported("block without terminator")
 
     _NONNEG.clear()
+    _RANGES.clear()
     first = run(fn.order[0], None, args, 0)
-    if not _NONNEG:
+    if not _NONNEG and not _RANGES:
         return first
     budget[0] = max_paths
     return run(fn.order[0], None, args, 0)   # second pass: the harvested sign knowledge is applied everywhere
@@ -798,6 +861,21 @@ def gated(mod, fn, max_paths=4000):
 
 def _harvest(c):
     """entry-block assumptions of the form x > -1 / x >= 0 / x <u 2^(N-1): x is non-negative"""
+    if c[0] == "icmp" and is_c(c[4]) and c[3][0] == "arg":
+        b_ = c[4][1]
+        lo_, hi_ = _RANGES.get(c[3], (-(1 << (b_ - 1)), (1 << (b_ - 1)) - 1))
+        k_ = sval(c[4])
+        if c[1] == "sgt":
+            lo_ = max(lo_, k_ + 1)
+        elif c[1] == "sge":
+            lo_ = max(lo_, k_)
+        elif c[1] == "slt":
+            hi_ = min(hi_, k_ - 1)
+        elif c[1] == "sle":
+            hi_ = min(hi_, k_)
+        elif c[1] == "ult" and c[4][2] <= (1 << (b_ - 1)):
+            lo_, hi_ = max(lo_, 0), min(hi_, c[4][2] - 1)
+        _RANGES[c[3]] = (lo_, hi_)
     if c[0] == "icmp" and is_c(c[4]):
         b = c[4][1]
         if (c[1] == "sgt" and sval(c[4]) >= -1) or (c[1] == "sge" and sval(c[4]) >= 0) or (c[1] == "ult" and c[4][2] <= (1 << (b - 1))) or (c[1] == "ule" and c[4][2] < (1 << (b - 1))):
